@@ -136,8 +136,10 @@ Definition write_reject (o : options) (p : patch) (rejected : nat) (h : hunk) : 
     do t <- write_hunk_as_context h;
     Ok ((if Nat.eqb rejected 0 then write_patch_header_as_context p else bs "***************" ++ [10%N]) ++ t).
 
+(* a rejected hunk: both starts moved by the net growth of the hunks applied before it, never below zero *)
+Definition shift_start (s d : Z) : Z := Z.max 0 (sadd s d).
 Definition shift_hunk (h : hunk) (d : Z) : hunk :=
-  mkHunk (mkRange (sadd (rstart (oldr h)) d) (rcount (oldr h))) (mkRange (sadd (rstart (newr h)) d) (rcount (newr h))) (body h).
+  mkHunk (mkRange (shift_start (rstart (oldr h)) d) (rcount (oldr h))) (mkRange (shift_start (rstart (newr h)) d) (rcount (newr h))) (body h).
 
 (* the locate step of apply_patch: a patch which creates a file (old file /dev/null) claims there is nothing
    there yet, which does not fit a file with content *)
